@@ -16,8 +16,7 @@
 (***************************************************************************)
 EXTENDS Integers, Sequences, FiniteSets, TLC, Json, CSV
 
-CONSTANTS MaxDepth, MaxKids
-Names == {"block", "call"}
+CONSTANTS MaxDepth, MaxKids, Names
 \* the variadic constructs that deliberately have no ...Func variant
 NoFuncVariant == {"make"}
 
